@@ -15,7 +15,7 @@ A hang (neither thread finishing after the other was resumed) is reported as a d
 import os, sys, re, json, threading, traceback, random, time
 
 T_BLOCK = 0.25      # seconds B may run before it is considered blocked on a lock held by the suspended A
-T_HANG = 20.0
+T_HANG = 60.0
 
 def _norm(x):
     return re.sub(r'0x[0-9a-fA-F]+', '0x?', x if isinstance(x, str) else repr(x))[:600]
@@ -74,7 +74,7 @@ def sc_is_bearable_two_hints():
     from beartype.door import is_bearable
     import typing
     h1 = typing.List[typing.Dict[str, typing.Tuple[int, bytes]]]; h2 = typing.Tuple[typing.Union[int, typing.List[str]], ...]
-    return (lambda: is_bearable([{'a': (1, b'x')}], h1)), (lambda: is_bearable((1, ['a', 2]), h2)), lambda: ''
+    return (lambda: is_bearable([{'a': (1, b'x')}], h1)), (lambda: is_bearable(([2],), h2)), lambda: ''      # one item per container: the verdict does not depend on the sampler's draw
 
 def sc_decorate_two():
     from beartype import beartype
@@ -210,10 +210,14 @@ def explore(scn, repo, budget, seed):
     """returns (n_lines, allowed, trials, failures) for one scenario, both role assignments"""
     _prepare(repo)
     allowed = {}
-    for k in (0, -1):
-        o = _child(scn, False, k, repo)
-        if 'harness_error' in o: return dict(error=o['harness_error'])
-        allowed[_key(o)] = 'A;B' if k == 0 else 'B;A'
+    for rep_i in range(2):
+        for k in (0, -1):
+            o = _child(scn, False, k, repo)
+            if 'harness_error' in o: return dict(error=o['harness_error'])
+            allowed.setdefault(k, set()).add(_key(o))
+    # a scenario whose SEQUENTIAL observation is not reproducible (e.g. depends on the sampler's draw) is a harness defect, not a finding
+    if any(len(v) != 1 for v in allowed.values()): return dict(error=f'scenario {scn} is not deterministic when run sequentially: {sorted(map(str, allowed.values()))[:2]}')
+    allowed = {next(iter(v)): ('A;B' if k == 0 else 'B;A') for k, v in allowed.items()}
     fails, trials, lines = [], 0, {}
     rnd = random.Random(f'{seed}:{scn}')
     for swap in (False, True):
